@@ -110,7 +110,7 @@ func cmdFuncs(args []string) {
 				detail = fmt.Sprintf("%s trace=%v %v", ob.Pos, ob.Trace, r.Tried)
 			}
 		}
-		if strings.Contains(n, "#canary") || strings.Contains(n, "#cover") {
+		if strings.Contains(n, "#canary") || strings.Contains(n, "#cover") || strings.Contains(n, "#reach:") {
 			anySat := false
 			var sts []string
 			for _, i := range byName[n] {
@@ -119,7 +119,17 @@ func cmdFuncs(args []string) {
 				}
 				sts = append(sts, fmt.Sprint(results[i].Tried))
 			}
-			if !anySat {
+			if !anySat && strings.Contains(n, "#reach:") {
+				allUnsat := true
+				for _, i := range byName[n] {
+					if results[i].Status != "unsat" {
+						allUnsat = false
+					}
+				}
+				if allUnsat {
+					fmt.Printf("DEADCLAUSE %s\n", n)
+				}
+			} else if !anySat {
 				fmt.Printf("VACUOUS? %s %v\n", n, sts)
 			} else if *verbose {
 				fmt.Printf("ok(reachable) %s\n", n)
